@@ -38,11 +38,44 @@ import collections
 import os
 
 
+FINDING_KEYS = {'PIPE_EQ': 'pipe_eq_operator', 'DEN_NAMED': 'denotation_named_argument',
+                'QUOTE_PY': 'quote_literal_not_python',
+                'EMPTY_ARRAYSUB': 'cpp_empty_array_subscript',
+                'EMPTY_BODY': 'combine_empty_body',
+                'BODYLESS_AGG_LAYOUT': 'bodyless_aggregation_layout',
+                'DEN_PAREN': 'denotation_parenthesised_argument',
+                'ARRAYSUB_SPAN': 'cpp_array_subscript_heritage',
+                'IMPORT_LAYOUT': 'import_layout'}
+_fixed_keys = []
+
+
+def _fixed():
+    """keys of C06 / C15 findings that known_findings.json records as fixed (and not
+    also as open under the other property)."""
+    if not _fixed_keys:
+        st = {}
+        try:
+            import json
+            with open(os.path.join(os.path.dirname(os.path.dirname(
+                    os.path.abspath(__file__))), 'known_findings.json')) as f:
+                for e in json.load(f).get('findings', []):
+                    if e.get('property') in ('C06', 'C15'):
+                        st.setdefault(e.get('key'), set()).add(e.get('status'))
+        except (OSError, ValueError):
+            pass
+        _fixed_keys.append(set(k for k, v in st.items() if v == {'fixed'}))
+    return _fixed_keys[0]
+
+
 def excluded(name):
-    """Exclusion switch of an open finding.  Default on; VERIF_SYNTAX_EXCLUDE_<NAME>=0
-    switches it off (the generator then produces the input class again and the checks
-    report it under the finding's bucket key)."""
-    return os.environ.get('VERIF_SYNTAX_EXCLUDE_' + name, '1') != '0'
+    """Exclusion switch of a finding.  On while the finding is open (no entry, or an
+    `open` entry, for its key in known_findings.json), off once every entry for the key
+    says `fixed`; VERIF_SYNTAX_EXCLUDE_<NAME>=0 / =1 overrides.  Off means: the generator
+    produces the input class again and the checks report it under the finding's key."""
+    v = os.environ.get('VERIF_SYNTAX_EXCLUDE_' + name)
+    if v is not None:
+        return v != '0'
+    return FINDING_KEYS[name] not in _fixed()
 
 
 # FINDING bodyless_aggregation_layout (C15 both parsers, C06 for some shapes).
